@@ -2,4 +2,5 @@ import Gkv.Model.Basic
 import Gkv.Model.Treap
 import Gkv.Model.Codec
 import Gkv.Model.Store
+import Gkv.Model.Blocks
 import Gkv.Model.World
